@@ -380,3 +380,92 @@ func VX_C17_TypedArgMismatch(args []int) {
 	}
 	vxCover("c17.typed-mismatch")
 }
+
+func init() { vxRegister("VX_C17_RouteLevel", VX_C17_RouteLevel) }
+
+var vxVaultSeen [][]byte
+
+func VxVaultOp(ctx erpc.CallCtx, arg *[]byte) ([]byte, *erpc.Status) {
+	vxVaultSeen = append(vxVaultSeen, append([]byte{}, *arg...))
+	return []byte("RESULT-" + string(*arg)), nil
+}
+
+func VxPublicOp(ctx erpc.CallCtx, arg *[]byte) ([]byte, *erpc.Status) {
+	return *arg, nil
+}
+
+// VX_C17_RouteLevel: the secure plugin is registered on a route group (the
+// way the package's own example does) next to sibling groups with other
+// plugins; the order of group creation and handler registration varies. A
+// secure call into the group is decrypted for the handler and answered
+// encrypted; a different key is refused. args: order(0 groups first then handlers, 1 each group with its handlers, 2 sibling created first), sameKey(0/1), nBody
+func VX_C17_RouteLevel(args []int) {
+	order, sameKey, nBody := args[0], args[1], args[2]
+	vxVaultSeen = nil
+	ckey := vxKeyA
+	if sameKey == 0 {
+		ckey = vxKeyB
+	}
+	cli := erpc.NewPeer(erpc.PeerConfig{DefaultBodyCodec: "protobuf"}, NewPlugin(10001, ckey))
+	srv := erpc.NewPeer(erpc.PeerConfig{DefaultBodyCodec: "protobuf"})
+	audit := &vxAudit{}
+	switch order {
+	case 0:
+		vault := srv.SubRoute("/vault", NewPlugin(10002, vxKeyA))
+		public := srv.SubRoute("/public", audit)
+		vault.RouteCallFunc(VxVaultOp)
+		public.RouteCallFunc(VxPublicOp)
+	case 1:
+		vault := srv.SubRoute("/vault", NewPlugin(10002, vxKeyA))
+		vault.RouteCallFunc(VxVaultOp)
+		public := srv.SubRoute("/public", audit)
+		public.RouteCallFunc(VxPublicOp)
+	case 2:
+		public := srv.SubRoute("/public", audit)
+		vault := srv.SubRoute("/vault", NewPlugin(10002, vxKeyA))
+		public.RouteCallFunc(VxPublicOp)
+		vault.RouteCallFunc(VxVaultOp)
+	}
+	arg := append([]byte("ARG-"), vxBytes("arg", nBody)...)
+	argCopy := append([]byte{}, arg...)
+	cconn := newVxConn("cli:1", "srv:1")
+	sconn := newVxConn("srv:1", "cli:1")
+	cs, st := cli.ServeConn(cconn)
+	vxAssume(st.OK())
+	_, st = srv.ServeConn(sconn)
+	vxAssume(st.OK())
+	var got []byte
+	cmd := cs.AsyncCall("/vault/vx_vault_op", arg, &got, make(chan erpc.CallCmd, 1), WithSecureMeta())
+	vxAssert(cconn.nWrites() == 1, "call written")
+	if cconn.nWrites() != 1 {
+		return
+	}
+	vxAssert(!vxMentions(cconn.writes[0], argCopy), "argument of a secure call does not appear in clear on the wire")
+	sconn.feed(cconn.writes[0])
+	vxWaitIdle()
+	vxAssert(sconn.nWrites() == 1, "[C03] server answered once")
+	if sconn.nWrites() != 1 {
+		return
+	}
+	rep := sconn.writes[0]
+	rm, err := vxParse(rep)
+	vxAssert(err == nil, "reply parses")
+	if sameKey == 1 {
+		vxAssert(len(vxVaultSeen) == 1 && bytes.Equal(vxVaultSeen[0], argCopy), "the handler of a route group with the secure plugin receives the original argument")
+		vxAssert(err == nil && vxHasSecure(rm), "the reply to an encrypted request is marked secure")
+		vxAssert(!vxMentions(rep, []byte("RESULT-ARG-")), "the result does not appear in clear on the wire")
+		cconn.feed(rep)
+		vxWaitIdle()
+		select {
+		case <-cmd.Done():
+			vxAssert(cmd.StatusOK() && bytes.Equal(got, append([]byte("RESULT-"), argCopy...)), "the caller receives the original result")
+		default:
+			vxAssert(false, "[C02] call completed")
+		}
+	} else {
+		vxAssert(len(vxVaultSeen) == 0, "different key: handler not invoked")
+		vxAssert(err == nil && rm.Status(true).Code() == 10002, "different key: non-OK status with the configured code")
+	}
+	vxAssert(audit.seen == 0, "[C09] a sibling group's plugin does not see this group's calls")
+	vxCover("c17.route-level")
+}
